@@ -1,4 +1,5 @@
 """C14 -- every IDL in the supported grammar generates Rust that compiles."""
+import boxing
 import glob, itertools, os, re, shutil
 import common as c
 import gen, gencheck, pbcheck, schemas, pbschemas, c14docs
@@ -28,6 +29,15 @@ def documents(tier, seed):
     for s in pbcheck.corpus_for(tier, seed):
         docs.append(c14docs.doc("pbcorpus_" + s["name"], pbschemas.render(s), kind="proto", shape="proto-corpus"))
     docs += c14docs.thrift_docs() + c14docs.proto_docs()
+    # recursive type graphs: representatives of every signature explored by spec/MCBoxing.tla, with the outcome the as-built
+    # boxing model (spec/Boxing.tla) predicts; a predicted failure is the recorded finding C14-union-member-not-boxed
+    reps, bst = boxing.select(tier, seed)
+    for g, ok, i in reps:
+        d = c14docs.doc(f"box_{i}", boxing.render(g), shape="recursive-graph" if ok else "by-value-cycle-through-unions-only")
+        d["predicted_ok"] = ok
+        d["only_default_config"] = True
+        docs.append(d)
+    documents.boxing_stats = bst
     for g in sorted(glob.glob(os.path.join(c.REPO, "pilota-build/test_data/thrift/*.thrift"))):
         name = os.path.basename(g)[:-7]
         d = c14docs.doc("golden_" + name, open(g).read(), shape="golden:" + name)
@@ -71,6 +81,8 @@ def run(rep, tier, seed, replay):
             mine = cfgs
         if d["kind"] == "proto":
             mine = [cf for cf in mine if not cf["keep"]] or [cfgs[0]]
+        if d.get("only_default_config"):
+            mine = [cfgs[0]]
         for cf in mine:
             uid = f"u{n}"
             n += 1
@@ -114,6 +126,11 @@ def run(rep, tier, seed, replay):
         rep.violation({"check": check, "shape": u.doc["shape"], "kind": u.doc["kind"]},
                       {"document": u.doc["name"], "files": u.doc["files"] if len(str(u.doc["files"])) < 4000 else list(u.doc["files"]),
                        "config": cfg_name(u.cfg), "status": u.status, "diagnostic": u.output[-1500:], "first_error": first})
+    # conformance of the boxing model: a graph predicted to have an unbroken by-value cycle must indeed fail to compile
+    # (if it compiles, the model misdescribes the generator: a tool error, not a property violation)
+    wrong = [u.doc["name"] for u in units if u.doc.get("predicted_ok") is False and u.ok]
+    if wrong:
+        raise c.ToolError("spec/Boxing.tla predicts an infinite-size type for documents that compile: " + ", ".join(wrong[:8]))
     # quarantined documents that unexpectedly pass are fine (a finding got repaired); nothing to report
     rep.cov = {
         "evaluations": len(units), "distinct_nontrivial": len(docs),
@@ -126,6 +143,9 @@ def run(rep, tier, seed, replay):
                 "emitted files against the working-tree runtime",
         "samples": [{"document": units[3].doc["name"], "config": cfg_name(units[3].cfg), "ok": units[3].ok}],
         "programs": len(docs), "units": len(units), "failing_units_before_known_filter": nfail, "exhaustive": False,
+        "recursive_type_graphs": dict(getattr(documents, "boxing_stats", {}), documents_run=len([u for u in units if "predicted_ok" in u.doc]),
+                                      predicted_failures_confirmed=len([u for u in units if u.doc.get("predicted_ok") is False and not u.ok]),
+                                      theorem="after as-built boxing a by-value cycle remains iff the graph has a by-value cycle through union variants and typedefs only (checked by TLC on every graph)"),
     }
     rep.assumptions = ["TLA+ does not decide type-checking: rustc is the oracle; the specification supplies the program space (DESIGN.md 5) "
                        "and the documents that isolate recorded findings (each quarantined in a single-shape document)",
